@@ -58,6 +58,11 @@ def cases(shard, tier):
         for late in ('header-id-edited', 'origin-file-id-edited', 'both-edited-alike', 'both-edited-alike-74-chars',
                      'sequence-number-edited', 'sequence-number-edited-11-digits'):
             yield {'header': {'seq': 1, 'idlen': 8, 'ident': '0', 'nlf': 1, 'late': late}}
+        # header sequence numbers that do not ascend with the creation order of the logical files
+        for nlf in (2, 3):
+            for order in ('down', 'same', 'mixed'):
+                yield {'header': {'seq': 5, 'idlen': 8, 'ident': '0', 'nlf': nlf, 'order': order}}
+                yield {'header': {'seq': 5, 'idlen': 8, 'ident': '0', 'nlf': nlf, 'order': order, 'objects': True}}
         # every data record comes after the set that defines the object it belongs to - also when a later call into
         # that set was refused because of its name
         for kind in ('no_format', 'frame'):
@@ -81,12 +86,20 @@ def cases(shard, tier):
         yield {'history': h}
 
 
+def _seq_offset(hd, k):
+    """Offset of the k-th logical file's header sequence number: ascending by default; descending, all equal or
+    up-and-down on request (the logical files are emitted in creation order whatever their numbers are)."""
+    order = hd.get('order', 'up')
+    n = hd['nlf']
+    return {'up': k, 'down': n - 1 - k, 'same': 0, 'mixed': (1, 2, 0)[k % 3]}[order]
+
+
 def header_spec(hd):
     ops = []
     for k in range(hd['nlf']):
         L = f'L{k}'
         ops.append({'op': 'lf', 'h': L, 'kw': {'fh_id': hd.get('idtext') or ('HEADER-ID-%d-' % k + 'x' * 80)[:hd['idlen']],
-                                                'fh_sequence_number': hd['seq'] + (k if hd['seq'] > 0 else 0),
+                                                'fh_sequence_number': hd['seq'] + (_seq_offset(hd, k) if hd['seq'] > 0 else 0),
                                                 'fh_identifier': hd['ident']}})
         sn = {'set_name': f'LF{k}'} if hd['nlf'] > 1 else {}
         ops.append(S.op_origin(f'O{k}', f'ORIGIN-{k}', lf=L, **sn))
